@@ -688,6 +688,45 @@ fn metadata_texts(wide: bool) -> Vec<(String, String)> {
     out
 }
 
+/// Header lines whose *values* sit on numeric boundaries: `! Expires: <n> <unit>` for n around
+/// every power of two and around the documented limits (1 hour .. 14 days), with every unit
+/// spelling; each as the only header line and behind a title line.
+fn metadata_value_texts() -> Vec<(String, String)> {
+    let mut ns: Vec<String> = vec![];
+    for base in [0i128, 1, 14, 15, 24, 127, 128, 255, 256, 336, 337, 2730, 2731, 2744, 5462, 10922, 32767, 32768, 65535, 65536, 2147483647, 2147483648, 4294967295, 4294967296, 18446744073709551615, 18446744073709551616] {
+        for d in [-1i128, 0, 1] {
+            ns.push((base + d).to_string());
+        }
+    }
+    ns.extend(["+5", "-5", "3.5", "5e2", "0x10", "", " 5", "５"].iter().map(|s| s.to_string()));
+    ns.sort();
+    ns.dedup();
+    let mut out = vec![];
+    for n in &ns {
+        for unit in [" days", " day", " hours", " hour", "", " d", " days (update frequency)", "days", " DAYS", " weeks"] {
+            let line = format!("! Expires: {}{}", n, unit);
+            out.push((line.clone(), format!("expires-value {:?}", line)));
+            out.push((format!("! Title: t\n{}\n||example.com^", line), format!("expires-value after a title {:?}", line)));
+        }
+    }
+    out
+}
+
+/// The documented range: "Any value between 1 hour and 14 days is possible".
+fn expires_in_documented_range(line: &str) -> Option<bool> {
+    let v = line.strip_prefix("! Expires: ")?;
+    let (n, unit) = v.split_once(' ').unwrap_or((v, ""));
+    if n.is_empty() || !n.bytes().all(|b| b.is_ascii_digit()) {
+        return None; // spellings that are not plain decimal numbers: not judged
+    }
+    let n: u64 = n.parse().ok()?; // (too large for u64: not judged either)
+    match unit {
+        "days" | "day" => Some((1..=14).contains(&n)),
+        "hours" | "hour" => Some((1..=336).contains(&n)),
+        _ => None,
+    }
+}
+
 fn probe_metadata(text: &str, why: &str, l: &mut Local) {
     let case = json!({"part": "metadata", "text": text, "layout": why});
     let size = text.len() as u64;
@@ -712,6 +751,21 @@ fn probe_metadata(text: &str, why: &str, l: &mut Local) {
                 l.nontrivial += 1;
             }
             l.hist(&format!("metadata:{}{}{}", t, if expires { "+expires" } else { "" }, if redirect { "+redirect" } else { "" }));
+            // a plain `<n> days|hours` value is taken exactly when it lies in the documented range
+            // (only in the value sweep: in the cut-off layouts the line may lie beyond byte 1024)
+            if let Some(line) = text.lines().find(|ln| why.starts_with("expires-value") && ln.starts_with("! Expires: ")) {
+                if let Some(in_range) = expires_in_documented_range(line) {
+                    l.compared += 1;
+                    if expires != in_range {
+                        l.mismatch(Mismatch {
+                            sig: format!("c11.metadata.expires.{}", if in_range { "in-range-value-dropped" } else { "out-of-range-value-accepted" }),
+                            what: format!("{:?}: documented range 1 hour .. 14 days; read_list_metadata reports expires={}", line, expires),
+                            case: case.clone(),
+                            size,
+                        });
+                    }
+                }
+            }
         }
     }
     for f in FORMATS {
@@ -1313,7 +1367,8 @@ fn check(ctx: &Ctx) -> i32 {
     });
 
     // (c) metadata cut-off
-    let metas = metadata_texts(ctx.tier.pick(false, true));
+    let mut metas = metadata_texts(ctx.tier.pick(false, true));
+    metas.extend(metadata_value_texts());
     ctx.bound("c_metadata_texts", metas.len());
     ctx.par_range("c-metadata", metas.len() as u64, 16, |i, l| {
         let (t, why) = &metas[i as usize];
